@@ -279,10 +279,30 @@ theorem lerpS_mid (y0 y1 y l0 l1 r0 r1 : K) :
     lerpS y0 y1 y ((l0 + r0) / 2) ((l1 + r1) / 2) = (lerpS y0 y1 y l0 l1 + lerpS y0 y1 y r0 r1) / 2 := by
   unfold lerpS; ring
 
+/-- a line restricted to the lower half of the slab -/
+theorem lerpS_lower (y0 y1 y u0 u1 : K) (h : y0 ≠ y1) :
+    lerpS y0 ((y0 + y1) / 2) y u0 ((u0 + u1) / 2) = lerpS y0 y1 y u0 u1 := by
+  unfold lerpS
+  have hd : y1 - y0 ≠ 0 := sub_ne_zero.mpr (Ne.symm h)
+  have e : (y0 + y1) / 2 - y0 = (y1 - y0) / 2 := by ring
+  rw [e]
+  field_simp
+  ring
+
+/-- a line restricted to the upper half of the slab -/
+theorem lerpS_upper (y0 y1 y u0 u1 : K) (h : y0 ≠ y1) :
+    lerpS ((y0 + y1) / 2) y1 y ((u0 + u1) / 2) u1 = lerpS y0 y1 y u0 u1 := by
+  unfold lerpS
+  have hd : y1 - y0 ≠ 0 := sub_ne_zero.mpr (Ne.symm h)
+  have e : y1 - (y0 + y1) / 2 = (y1 - y0) / 2 := by ring
+  rw [e]
+  field_simp
+  ring
+
 /-- **A point of a trapezoid with horizontal bases is in the band of a segment if the four
 corners are.** -/
-theorem band_quad (a b : P K) (d : K) (y0 y1 l0 l1 r0 r1 : K) (q : P K)
-    (hy0 : y0 < q.y) (hy1 : q.y < y1)
+theorem band_quad (a b : P K) (d : K) (y0 y1 l0 l1 r0 r1 : K) (q : P K) (hlt : y0 < y1)
+    (hy0 : y0 ≤ q.y) (hy1 : q.y ≤ y1)
     (hl : lerpS y0 y1 q.y l0 l1 ≤ q.x) (hr : q.x ≤ lerpS y0 y1 q.y r0 r1)
     (hc : ∀ c ∈ quadCorners y0 y1 l0 l1 r0 r1, sqDistSeg c a b ≤ d) : sqDistSeg q a b ≤ d := by
   have hd : 0 < y1 - y0 := by linarith
@@ -330,35 +350,58 @@ theorem bandCovers_iff (edges : List (P K × P K)) (d2 : K) (cs : List (P K)) :
   unfold bandCovers
   simp [List.any_eq_true, List.all_eq_true]
 
-/-- **Soundness of the bisecting band test**: if `bandRec` accepts the trapezoid between the lines
-`(l0,y0)–(l1,y1)` and `(r0,y0)–(r1,y1)`, every point of the open slab between the two lines is
+/-- **Soundness of the subdividing band test**: if `bandRec` accepts the trapezoid between the
+lines `(l0,y0)–(l1,y1)` and `(r0,y0)–(r1,y1)`, every point of the slab between the two lines is
 within `d2` of some outline edge. -/
-theorem bandRec_sound (edges : List (P K × P K)) (d2 y0 y1 : K) (q : P K)
-    (hy0 : y0 < q.y) (hy1 : q.y < y1) :
-    ∀ (depth : Nat) (l0 l1 r0 r1 : K), bandRec edges d2 y0 y1 depth l0 l1 r0 r1 = true →
+theorem bandRec_sound (edges : List (P K × P K)) (d2 : K) (q : P K) :
+    ∀ (depth : Nat) (y0 y1 l0 l1 r0 r1 : K), bandRec edges d2 depth y0 y1 l0 l1 r0 r1 = true →
+      y0 < y1 → y0 ≤ q.y → q.y ≤ y1 →
       lerpS y0 y1 q.y l0 l1 ≤ q.x → q.x ≤ lerpS y0 y1 q.y r0 r1 → inBandOf edges d2 q := by
-  have base : ∀ (l0 l1 r0 r1 : K), bandCovers edges d2 (quadCorners y0 y1 l0 l1 r0 r1) = true →
+  have base : ∀ (y0 y1 l0 l1 r0 r1 : K), bandCovers edges d2 (quadCorners y0 y1 l0 l1 r0 r1) = true →
+      y0 < y1 → y0 ≤ q.y → q.y ≤ y1 →
       lerpS y0 y1 q.y l0 l1 ≤ q.x → q.x ≤ lerpS y0 y1 q.y r0 r1 → inBandOf edges d2 q := by
-    intro l0 l1 r0 r1 h hl hr
+    intro y0 y1 l0 l1 r0 r1 h hlt hy0 hy1 hl hr
     obtain ⟨e, he, hc⟩ := (bandCovers_iff _ _ _).mp h
-    exact ⟨e, he, band_quad e.1 e.2 d2 y0 y1 l0 l1 r0 r1 q hy0 hy1 hl hr hc⟩
+    exact ⟨e, he, band_quad e.1 e.2 d2 y0 y1 l0 l1 r0 r1 q hlt hy0 hy1 hl hr hc⟩
+  -- choosing the left or right part of a (half-)slab
+  have side : ∀ (n : Nat) (ya yb la lb ra rb : K),
+      (∀ (y0 y1 l0 l1 r0 r1 : K), bandRec edges d2 n y0 y1 l0 l1 r0 r1 = true →
+        y0 < y1 → y0 ≤ q.y → q.y ≤ y1 →
+        lerpS y0 y1 q.y l0 l1 ≤ q.x → q.x ≤ lerpS y0 y1 q.y r0 r1 → inBandOf edges d2 q) →
+      bandRec edges d2 n ya yb la lb ((la + ra) / 2) ((lb + rb) / 2) = true →
+      bandRec edges d2 n ya yb ((la + ra) / 2) ((lb + rb) / 2) ra rb = true →
+      ya < yb → ya ≤ q.y → q.y ≤ yb →
+      lerpS ya yb q.y la lb ≤ q.x → q.x ≤ lerpS ya yb q.y ra rb → inBandOf edges d2 q := by
+    intro n ya yb la lb ra rb ih h1 h2 hlt hy0 hy1 hl hr
+    have hm := lerpS_mid ya yb q.y la lb ra rb
+    rcases le_total q.x ((lerpS ya yb q.y la lb + lerpS ya yb q.y ra rb) / 2) with hle | hge
+    · exact ih ya yb la lb _ _ h1 hlt hy0 hy1 hl (by rw [hm]; exact hle)
+    · exact ih ya yb _ _ ra rb h2 hlt hy0 hy1 (by rw [hm]; exact hge) hr
   intro depth
   induction depth with
   | zero =>
-    intro l0 l1 r0 r1 h hl hr
+    intro y0 y1 l0 l1 r0 r1 h
     rw [bandRec] at h
-    exact base l0 l1 r0 r1 h hl hr
+    exact base y0 y1 l0 l1 r0 r1 h
   | succ n ih =>
-    intro l0 l1 r0 r1 h hl hr
-    rw [bandRec, Bool.or_eq_true, Bool.and_eq_true] at h
-    rcases h with h | ⟨h1, h2⟩
-    · exact base l0 l1 r0 r1 h hl hr
-    · have hm : lerpS y0 y1 q.y ((l0 + r0) / Scalar.two) ((l1 + r1) / Scalar.two)
-          = (lerpS y0 y1 q.y l0 l1 + lerpS y0 y1 q.y r0 r1) / 2 := by
-        have e2 : (Scalar.two : K) = 2 := sc_two
-        rw [e2]; exact lerpS_mid y0 y1 q.y l0 l1 r0 r1
-      rcases le_total q.x ((lerpS y0 y1 q.y l0 l1 + lerpS y0 y1 q.y r0 r1) / 2) with hle | hge
-      · exact ih l0 l1 _ _ h1 hl (by rw [hm]; exact hle)
-      · exact ih _ _ r0 r1 h2 (by rw [hm]; exact hge) hr
+    intro y0 y1 l0 l1 r0 r1 h hlt hy0 hy1 hl hr
+    rw [bandRec] at h
+    simp only [] at h
+    have e2 : (Scalar.two : K) = 2 := sc_two
+    rw [e2, Bool.or_eq_true, Bool.and_eq_true, Bool.and_eq_true, Bool.and_eq_true] at h
+    rcases h with h | ⟨⟨⟨h1, h2⟩, h3⟩, h4⟩
+    · exact base y0 y1 l0 l1 r0 r1 h hlt hy0 hy1 hl hr
+    · have hne : y0 ≠ y1 := hlt.ne
+      rcases le_total q.y ((y0 + y1) / 2) with hlo | hhi
+      · -- lower half
+        refine side n y0 ((y0 + y1) / 2) l0 ((l0 + l1) / 2) r0 ((r0 + r1) / 2) ih h1 h2
+          (by linarith) hy0 hlo ?_ ?_
+        · rw [lerpS_lower _ _ _ _ _ hne]; exact hl
+        · rw [lerpS_lower _ _ _ _ _ hne]; exact hr
+      · -- upper half
+        refine side n ((y0 + y1) / 2) y1 ((l0 + l1) / 2) l1 ((r0 + r1) / 2) r1 ih h3 h4
+          (by linarith) hhi hy1 ?_ ?_
+        · rw [lerpS_upper _ _ _ _ _ hne]; exact hl
+        · rw [lerpS_upper _ _ _ _ _ hne]; exact hr
 
 end Lyon.Slab
